@@ -5,11 +5,11 @@
 #       joins: queueing / reserving: i-th tuple = i-th message of each port, key_matching: equal keys, each message used once, number of tuples);
 #   real nodes fed by 3 external putters, observed at a serial sink, validated by TLC (TraceFlow).
 import os, vlib, flowlib
-SCEN = ['fifo', 'seq0', 'seq1', 'seq2', 'seq3', 'limit1', 'limit2', 'joinq', 'joinr', 'joink', 'prio', 'reserve', 'ow', 'wo', 'split', 'indexer']
+SCEN = ['fifo', 'seq0', 'seq1', 'seq2', 'seq3', 'limit1', 'limit2', 'limitL1', 'limitL2', 'joinq', 'joinr', 'joink', 'prio', 'reserve', 'ow', 'wo', 'split', 'indexer']
 
 
 def run(res, tier, seed):
     thorough = tier != 'quick'
     for cfg in ['Limiter_1.cfg', 'Limiter_t1.cfg', 'Limiter_big.cfg']:
         vlib.model_check(res, flowlib.SD, 'Limiter', cfg, deadlock=False)
-    flowlib.run_scenarios(res, 'C15', SCEN, 100 if not thorough else 2500, seed)
+    flowlib.run_scenarios(res, 'C15', SCEN, 60 if not thorough else 2500, seed)
